@@ -237,6 +237,8 @@ def load(repo=None, extra_tus=None, extra_roots=None, use_cache=True, only_tus=N
                 facts.vars.append(v)
         for h in d["hashinst"]:
             facts.hashinst.setdefault(h["fn"], h)
+    from . import hierarchy
+    facts.flattened = hierarchy.flatten(facts)
     if os.environ.get("VERIF_NO_NORMALISE") != "1":
         from . import normalize
         normalize.normalise(facts)
